@@ -490,3 +490,17 @@ Theorem tree_pass_drf : forall p0 T, sl_program p0 T = true ->
 Proof.
   intros p0 T H o ss m prog Hs. apply all_guarded_any_interleaving; [|exact Hs]. apply tree_pass_all_guarded. exact H.
 Qed.
+
+(* ... and on the barrier machine: every maximal execution of the cores along any path of the pass
+   output of a SameLevel program terminates in the memory of the program order *)
+From Snax Require Import Model.MultiCoreStreams.
+Theorem tree_pass_machine : forall p0 T, sl_program p0 T = true ->
+  forall o cores m, cores <> [] -> NoDup cores ->
+  let phs := map (filter specific) (split_phases [] (rrunl o (outl (barriers (flatl p0 false 0 T)) T) [])) in
+  (forall ph op, In ph phs -> In op ph -> In (o_core op) cores) ->
+  forall cfg, steps (streams_of cores phs, m) cfg ->
+    (all_finished (fst cfg) = true /\ meq (snd cfg) (exec (concat phs) m)) \/ (exists cfg', step cfg cfg').
+Proof.
+  intros p0 T H o cores m Hc Hn phs Hin cfg Hs.
+  apply (all_guarded_machine _ (tree_pass_all_guarded p0 T H) o cores m Hc Hn Hin cfg Hs).
+Qed.
